@@ -1195,6 +1195,45 @@ func (w *World) Exec(op hx.Zs) []hx.Zs {
 		}
 		fl.AddResultCallback(w.callback(cb))
 		w.nCbs++
+	case 15: // ParRegister: the same callback for the same counter from k goroutines released together
+		f, ctr, cb, k := r.n(), r.n(), r.n(), r.n()
+		e := r.eaddr()
+		fl := w.localFeature(e, f)
+		if fl == nil {
+			for i := int64(0); i < k; i++ {
+				ret = append(ret, hx.Zs{6})
+			}
+			break
+		}
+		fn := w.callback(cb)
+		oks := make([]int64, k)
+		var ready atomic.Int32
+		var wg sync.WaitGroup
+		for i := int64(0); i < k; i++ {
+			wg.Add(1)
+			go func(i int64) {
+				defer wg.Done()
+				// spinning start: all k calls enter AddResponseCallback within a few instructions of each other
+				ready.Add(1)
+				for j := 0; ready.Load() < int32(k); j++ {
+					if j > 20000 {
+						runtime.Gosched()
+					}
+				}
+				oks[i] = b2i(fl.AddResponseCallback(model.MsgCounterType(ctr), fn) == nil)
+			}(i)
+		}
+		wg.Wait()
+		w.nCbs++
+		stats["overlapping-registrations"]++
+		// which of the calls was accepted is the schedule's business: accepted ones first
+		for _, want := range []int64{1, 0} {
+			for _, ok := range oks {
+				if ok == want {
+					ret = append(ret, hx.Zs{4, ok})
+				}
+			}
+		}
 	case 14: // RemoveLocalEntity (never the device information entity; an address is not reused afterwards)
 		e := r.eaddr()
 		if ent := w.ents[ekey(e)]; ent != nil && !w.removed[ekey(e)] && !(len(e) == 1 && e[0] == 0) {
